@@ -9,9 +9,10 @@ open(os.path.join(dst, "patch.diff"), "w").write(subprocess.run(["git", "-C", "/
 for f in os.listdir(src):
     if f.endswith((".cpp", ".md", ".h")):
         shutil.copy(os.path.join(src, f), dst)
-json.dump({"property": i, "change": change, "needs_to_manifest": needs,
+prop = i[:3]
+json.dump({"property": prop, "change": change, "needs_to_manifest": needs,
            "origin": "independent sub-agent given only the property text and a scratch worktree",
            "confirmed": {"compiles": True, "unit_tests_with_change": unit, "demo": demo},
-           "checks_run": "VERIF_REPO=<worktree with the change> python3 tools/check.py %s --tier quick" % i,
+           "checks_run": "VERIF_REPO=<worktree with the change> python3 tools/check.py %s --tier quick" % prop,
            "result": result}, open(os.path.join(dst, "meta.json"), "w"), indent=1)
 print(os.listdir(dst))
